@@ -1,8 +1,11 @@
 (* Properties_Mid_C02.v — C02 at the level of the code: the character table written in the
    source of rdsparser_string_convert (translated on every run by tools/cmid.py) is the character
-   graph the model is instantiated with, and one call of rdsparser_string_update_single touches the
-   addressed cell only. *)
-Require Import Lemmas_Mid_Conv Lemmas_Mid_C07.
+   graph the model is instantiated with; one call of rdsparser_string_update_single touches the
+   addressed cell only; and the two group handlers that address 8-character texts —
+   rdsparser_group0_parse (PS, with TA / MS / AF) and rdsparser_group10_parse (PTYN) — are the model's
+   group0_parse and group10_parse: same cells, same levels, same buffer members, same callbacks in
+   the same order. *)
+Require Import Lemmas_Mid_Conv Lemmas_Mid_C07 Lemmas_Mid_Groups.
 Local Open Scope Z_scope.
 
 Theorem C02_code_charset : forall x, 32 <= x < 256 -> m_string_convert x = conv_u x.
@@ -16,3 +19,26 @@ Theorem C02_code_only_the_addressed_cell : forall c e inp ei ed pos prog al,
   /\ length c' = length c /\ length e' = length e.
 Proof. exact mid_only_addressed. Qed.
 Print Assumptions C02_code_only_the_addressed_cell.
+
+Theorem C02_code_group0 : forall g flag s evs, wf_group g -> length (ps s) = 8%nat ->
+  bytes (d_af (used s)) -> bytes (d_af (temp s)) ->
+  m_group0_parse (d_af (temp s)) (getf SMs (temp s)) (getf STa (temp s))
+                 (d_af (used s)) (getf SMs (used s)) (getf STa (used s)) (b2z (ext s))
+                 (cb s FAF) (cb s FMS) (cb s FPS) (cb s FTA) (corr_tab s) evs (prog_tab s)
+                 (contents (ps s)) (levels (ps s)) (ud s)
+                 (ga g) (gb g) (gc g) (gd g) (ea g) (eb g) (ec g) (ed g) flag
+  = let r := group0_parse conv_u g flag s in
+    let s' := fst r in
+    (0, d_af (temp s'), getf SMs (temp s'), getf STa (temp s'),
+        d_af (used s'), getf SMs (used s'), getf STa (used s'),
+        evs ++ map ev_call (snd r), contents (ps s'), levels (ps s')).
+Proof. exact (mid_group0_parse conv_u mid_convert_u). Qed.
+Print Assumptions C02_code_group0.
+
+Theorem C02_code_group10 : forall g flag s evs, wf_group g -> length (ptyn s) = 8%nat ->
+  m_group10_parse (cb s FPTYN) (corr_tab s) evs (prog_tab s) (contents (ptyn s)) (levels (ptyn s)) (ud s)
+                  (ga g) (gb g) (gc g) (gd g) (ea g) (eb g) (ec g) (ed g) flag
+  = let r := group10_parse conv_u g flag s in
+    (0, evs ++ map ev_call (snd r), contents (ptyn (fst r)), levels (ptyn (fst r))).
+Proof. exact (mid_group10_parse conv_u mid_convert_u). Qed.
+Print Assumptions C02_code_group10.
